@@ -91,7 +91,8 @@ func runConcurrent(c *Case) Verdict {
 			return Verdict{Verdict: "infra", Note: err.Error()}
 		}
 		if c.Shared != "" {
-			ast, rerr := lisp.READ("(do "+c.Shared+"\n)", nil, ns)
+			// read under a module name: the forms of the shared definitions carry positions
+			ast, rerr := lisp.READ("(do "+c.Shared+"\n)", types.NewCursorFile("shared"), ns)
 			if rerr != nil {
 				return Verdict{Verdict: "infra", Note: "shared definitions: " + rerr.Error()}
 			}
